@@ -235,7 +235,8 @@ func (ex *Exec) fileWrite(fr *Frame, h *FileH, bs []*term.T) Value {
 
 // readAtCore implements the documented ReadAt contract on (data, size):
 // n = min(len(p), max(0, size-off)); io.EOF iff n < len(p).
-func (ex *Exec) readAtCore(fr *Frame, data []*term.T, size *term.T, buf []Value, offT *term.T, negErr, beyondErr Value) Value {
+func (ex *Exec) readAtCore(fr *Frame, data []*term.T, size *term.T, bufS Slice, offT *term.T, negErr, beyondErr Value) Value {
+	buf := bufS.A
 	var off int64
 	if offT.IsConst() {
 		off = offT.Int()
@@ -268,6 +269,20 @@ func (ex *Exec) readAtCore(fr *Frame, data []*term.T, size *term.T, buf []Value,
 		return Tuple{mkInt(0), Iface{}}
 	}
 	ln := int64(len(buf))
+	if bufS.SymLen != nil {
+		// oversized buffer: longer than the materialised prefix, which must itself be
+		// longer than what the file can still deliver => the read is short
+		if !ex.Branch(term.Slt(term.Sub(size, mkInt(off)), mkInt(ln))) {
+			panic(unsupported("oversized read buffer not longer than the rest of the file (raise alloc_cap)"))
+		}
+		avail := term.Sub(size, mkInt(off))
+		nT := term.Ite(term.Slt(avail, mkInt(0)), mkInt(0), avail)
+		for i := int64(0); i < ln && off+i < int64(len(data)); i++ {
+			old := buf[i].(*term.T)
+			buf[i] = term.Ite(term.Slt(mkInt(i), nT), data[off+i], old)
+		}
+		return Tuple{nT, sentinel("EOF")}
+	}
 	if size.IsConst() {
 		avail := size.Int() - off
 		if avail < 0 {
@@ -305,7 +320,7 @@ func (ex *Exec) fileReadAt(fr *Frame, h *FileH, buf Slice, off *term.T) Value {
 		return Tuple{mkInt(0), newErr("read: file already closed", sentinel("file already closed"))}
 	}
 	in := h.Inode
-	return ex.readAtCore(fr, in.Data, in.sizeTerm(), buf.A, off, newErr("readat: negative offset"), nil)
+	return ex.readAtCore(fr, in.Data, in.sizeTerm(), buf, off, newErr("readat: negative offset"), nil)
 }
 
 // fileReadFull models io.ReadFull(f, buf) on a file handle.
@@ -642,7 +657,7 @@ func init() {
 			size = mkInt(int64(m.N))
 		}
 		data := m.Inode.Data
-		return ex.readAtCore(fr, data, size, a[1].(Slice).A, a[2].(*term.T), newErr("mmap: invalid ReadAt offset"), newErr("mmap: invalid ReadAt offset"))
+		return ex.readAtCore(fr, data, size, a[1].(Slice), a[2].(*term.T), newErr("mmap: invalid ReadAt offset"), newErr("mmap: invalid ReadAt offset"))
 	})
 	reg("(*golang.org/x/exp/mmap.ReaderAt).Close", func(ex *Exec, fr *Frame, a []Value) Value {
 		n, _ := a[0].(*Native)
